@@ -10,3 +10,7 @@ require (
 )
 
 replace github.com/SebastienMelki/sebuf => /repo
+
+require buf.build/go/protovalidate v0.0.0
+
+replace buf.build/go/protovalidate => ./stubs/protovalidate
